@@ -505,6 +505,8 @@ func (g *Gen) havocTarget(env *Env, st *State, m Expr) error {
 				inner := g.fresh("hv.E", arrSort(sInt, l.Sort))
 				g.setComp(st, key, srt, smtSto(c, s.L[0], inner))
 				g.logWrite(key, s.L[0])
+				g.arrPrev[inner] = arrDelta{smtSel(c, s.L[0]), s.L[1], "(+ " + s.L[1] + " " + s.L[2] + ")"}
+				g.bytesWrite(smtSel(c, s.L[0]), inner, s.L[1], "(+ "+s.L[1]+" "+s.L[2]+")")
 				// only the positions of s change; the rest of the backing array keeps its content
 				i := g.fresh("i", sInt)
 				g.addCons(fmt.Sprintf("(forall ((%s Int)) (! (=> (or (< %s %s) (>= %s (+ %s %s))) (= (select %s %s) (select %s %s))) :pattern ((select %s %s))))",
@@ -708,21 +710,30 @@ func (g *Gen) appendOp(fr *frame, st *State, s, t *Value, rt types.Type) *Value 
 		// every other object unchanged; result object's inner array: prefix equals s, suffix equals t
 		inner := g.fresh("appdata"+l.Path, arrSort(sInt, l.Sort))
 		g.addCons(smtEq(nc, smtSto(c, res.L[0], inner)))
-		i := g.fresh("i", sInt)
-		srcS := smtSel(smtSel(c, s.L[0]), plus(s.L[1], i))
+		// absolute positions j of the result array (patterns without arithmetic): j = roff + i
+		i := g.fresh("j", sInt)
+		rel := "(- " + i + " " + res.L[1] + ")"
+		srcS := smtSel(smtSel(c, s.L[0]), plus(s.L[1], rel))
 		var srcT string
 		if tIsString {
 			g.decl("(declare-fun strat (Int Int) Int)")
-			srcT = "(strat " + t.term() + " (- " + i + " " + s.L[2] + "))"
+			srcT = "(strat " + t.term() + " (- " + rel + " " + s.L[2] + "))"
 		} else if len(t.L) == 4 {
-			srcT = smtSel(smtSel(c, t.L[0]), plus(t.L[1], "(- "+i+" "+s.L[2]+")"))
+			srcT = smtSel(smtSel(c, t.L[0]), plus(t.L[1], "(- "+rel+" "+s.L[2]+")"))
 		}
-		dst := smtSel(inner, plus(res.L[1], i))
-		body := fmt.Sprintf("(=> (and (<= 0 %s) (< %s %s)) (= %s %s))", i, i, s.L[2], dst, srcS)
+		dst := smtSel(inner, i)
+		body := fmt.Sprintf("(=> (and (<= %s %s) (< %s (+ %s %s))) (= %s %s))", res.L[1], i, i, res.L[1], s.L[2], dst, srcS)
 		g.addCons(fmt.Sprintf("(forall ((%s Int)) (! %s :pattern (%s)))", i, body, dst))
 		if srcT != "" {
-			body2 := fmt.Sprintf("(=> (and (<= %s %s) (< %s %s)) (= %s %s))", s.L[2], i, i, nl, dst, srcT)
+			body2 := fmt.Sprintf("(=> (and (<= (+ %s %s) %s) (< %s (+ %s %s))) (= %s %s))", res.L[1], s.L[2], i, i, res.L[1], nl, dst, srcT)
 			g.addCons(fmt.Sprintf("(forall ((%s Int)) (! %s :pattern (%s)))", i, body2, dst))
+		}
+		if !tIsString && len(t.L) == 4 && l.Path == "" && l.Sort == sInt && isByteType(et) {
+			// content identity of the result: concatenation of the two operands' identities
+			g.decl("(declare-fun bytescat (Int Int) Int)")
+			g.addCons(fmt.Sprintf("(= (bytesval %s %s %s) (bytescat (bytesval %s %s %s) (bytesval %s %s %s)))", inner, res.L[1], nl,
+				smtSel(c, s.L[0]), s.L[1], s.L[2], smtSel(c, t.L[0]), t.L[1], t.L[2]))
+			g.noteBytes(inner, res.L[1], nl)
 		}
 		// in place: cells outside [off+len, off+newlen) of the old object keep their values
 		body3 := fmt.Sprintf("(=> (and %s (or (< %s (+ %s %s)) (>= %s (+ %s %s)))) (= (select %s %s) (select (select %s %s) %s)))", inplace, i, s.L[1], s.L[2], i, s.L[1], nl, inner, i, c, s.L[0], i)
@@ -772,6 +783,8 @@ func (g *Gen) copyOp(fr *frame, st *State, dst, src *Value, rt types.Type) *Valu
 		g.addCons(fmt.Sprintf("(forall ((%s Int)) (! %s :pattern ((select %s %s))))", i, body, inner, i))
 		g.setComp(st, key, srt, nc)
 		g.logWrite(key, dst.L[0])
+		g.arrPrev[inner] = arrDelta{smtSel(c, dst.L[0]), dst.L[1], "(+ " + dst.L[1] + " " + n + ")"}
+		g.bytesWrite(smtSel(c, dst.L[0]), inner, dst.L[1], "(+ "+dst.L[1]+" "+n+")")
 		if !srcIsString && l.Path == "" && l.Sort == sInt && isByteType(et) {
 			// the copied range carries the abstract content identity of the source range
 			g.addCons(fmt.Sprintf("(= (bytesval %s %s %s) (bytesval %s %s %s))", inner, dst.L[1], n, smtSel(c, src.L[0]), src.L[1], n))
